@@ -386,6 +386,52 @@ def gen_c20(rng, kind, maxops=30):
     return [cfg_line(c, "c20", ts, lf, val, seed)] + c.lines + ["end"]
 
 
+def exhaustive(kind, length, cap=2, nkeys=3):
+    """Every script of exactly `length` steps over a small alphabet (small-scope support for the
+    correspondence; thorough tier).  TTL containers: the pseudo-step `tick` advances the clock by 1 ms
+    (TTL 1 ms / 2 ms), so deadlines are hit exactly."""
+    import itertools
+    bounded = kind not in ("utmap", "utset")
+    cap = cap if bounded else 0
+    alpha = []
+    for k in range(nkeys):
+        ttl = 1 + (k % 2)
+        alpha += [["ins", k, "V", "iu", ttl], ["ins", k, "V", "i", ttl], ["ins", k, "V", "u", ttl], ["find", k, 0], ["erase", k]]
+        if kind in PEEK_KINDS:
+            alpha.append(["find", k, 1])
+    if kind in TTL_KINDS or kind == "lfuda":
+        alpha.append(["tick"])
+    if kind in TTL_KINDS:
+        alpha.append(["clean"])
+    if kind == "lfuda":
+        alpha.append(["age"])
+    if kind == "utlru":
+        alpha += [["uttl", 1], ["uttl", 3], ["clear"]]
+    if kind == "utmap":
+        alpha.append(["clear"])
+    universe = nkeys + cap
+    head = "cfg %s %d %d %d 1 2 %d single ts=0 lf=1.0 val=u seed=7" % (kind, cap, 2 if kind in TTL_KINDS else 0, 1 if kind == "lfuda" else 0, universe)
+    for combo in itertools.product(alpha, repeat=length):
+        now = T0
+        val = 100
+        lines = [head]
+        for t in combo:
+            if t[0] == "tick":
+                now += MS
+                continue
+            toks = list(t)
+            if toks[0] == "ins":
+                val += 1
+                toks[2] = 1 if kind == "utset" else val
+            lines.append("op 0 %d %s" % (now, " ".join(str(x) for x in toks)))
+        for j in range(cap):
+            val += 1
+            lines.append("op 0 %d ins %d %d i 2" % (now, nkeys + j, 1 if kind == "utset" else val))
+        if len(lines) > 1:
+            lines.append("end")
+            yield lines
+
+
 def gen(rng, kind, mode):
     if mode == "single":
         return gen_single(rng, kind)
